@@ -27,6 +27,9 @@ CLAIMED = {
  'C07': ('exploration', 'history-equivalence runtime monitor (random chunkings, copies, re-init, in-place) vs one-shot results',
          'Random call histories over every incremental interface compared with the one-shot result of the same run.',
          'Histories are sampled; one-shot results tied to the reference in the same run.', '4 C07'),
+ 'C10': ('exploration', 'link-time TRNG tape interposer + differential runtime monitor on unmasked values and raw share words',
+         'Masked AEAD, masked permutations x2/x3/x4, the whole masked-word toolkit and masked keys run under seven chosen random tapes on the x86-64, 64-bit C and 32-bit C masked backends and 4 (quick) / 27 (thorough) share triples each; unmasked values compared with the reference, raw share words compared before/after randomize.',
+         'Functional correctness only (not side-channel order); partial sizes 1..7 only.', '4 C10'),
  'C08': ('exploration', 'differential runtime monitor vs reference model + ASan/UBSan + guard pages',
          'Real library built for each of the 5 host backends (release and ASan+UBSan), every (offset,size) pair exhaustively, '
          'structured + random states for all 12 starting rounds, each output compared with an independent reference permutation.',
